@@ -90,11 +90,13 @@ type verifConn struct {
 	body    []byte
 	sentHV  string
 	sentHas bool
+	sentN   int // number of header keys in the map when the status was committed
 }
 
 func (w *verifConn) Header() http.Header { return w.hdr }
 func (w *verifConn) commit(code int) {
 	if len(w.codes) == 0 {
+		w.sentN = len(w.hdr)
 		if vv := w.hdr["X-Verif"]; len(vv) > 0 {
 			// every value of the header, in order (a multi-valued header such as Set-Cookie or Vary)
 			w.sentHV, w.sentHas = strings.Join(vv, "|"), true
@@ -337,6 +339,13 @@ func Verif_C02_timeout() {
 		ok := len(conn.codes) == 1 && conn.codes[0] == refStatus && string(conn.body) == string(refBody)
 		if ok && hvComparable {
 			ok = conn.sentHas == refHasHV && (!refHasHV || conn.sentHV == refHV)
+			// precisely the handler's headers: the middleware adds none of its own (a
+			// Content-Length it made up would, e.g., contradict what a HEAD handler declared)
+			wantN := 0
+			if refHasHV {
+				wantN = 1
+			}
+			ok = ok && conn.sentN == wantN
 		}
 		return ok
 	}
@@ -473,5 +482,6 @@ func Verif_C02_timeout_sequence() {
 	verifAssert(len(connB.codes) == 1 && connB.codes[0] == http.StatusOK, "sequence: the later request gets its own status")
 	verifAssert(string(connB.body) == bData, "sequence: the later request's client receives precisely its handler's body (nothing of the timed-out request)")
 	verifAssert(!connB.sentHas, "sequence: no header of the timed-out request reaches the later client")
+	verifAssert(connB.sentN == 0, "sequence: the later client receives precisely its handler's headers (it set none)")
 	verifReach("sequence")
 }
